@@ -16,6 +16,12 @@ def chainB (nw : Network) (nodes : List Nat) : Bool :=
 def sortedB (nw : Network) (nodes : List Nat) : Bool :=
   (pairs nodes).all (fun p => (nw.node p.1).ltStart (nw.node p.2))
 
+/-- every node ends no later than its successor starts (what the position searches rely on; for
+    real tours it follows from connectability, for dummy tours it is inherited from the paths they
+    were built from) -/
+def timeChainB (nw : Network) (nodes : List Nat) : Bool :=
+  (pairs nodes).all (fun p => ExtTime.le (nw.node p.1).endT (nw.node p.2).startT)
+
 def inner (nodes : List Nat) : List Nat := (nodes.drop 1).take (nodes.length - 2)
 
 /-- C10: a real tour starts at a start depot, ends at an end depot, has at least one activity and
@@ -27,6 +33,7 @@ def inner (nodes : List Nat) : List Nat := (nodes.drop 1).take (nodes.length - 2
 def tourValidB (nw : Network) (t : Tour) : Bool :=
   if t.isDummy then
     !t.nodes.isEmpty && t.nodes.all (fun n => isActivity (nw.node n)) && sortedB nw t.nodes
+      && timeChainB nw t.nodes
   else
     t.nodes.length ≥ 3
       && (nw.node (t.nodes.headD 0)).isStartDepot
@@ -48,17 +55,23 @@ def tourCachesExactB (nw : Network) (t : Tour) : Bool := (tourCacheDiffs nw t).i
 
 /-! ### C12 reference semantics of insertion -/
 
+/-- `lastTrueLen p n`: one more than the largest `i < n` with `p i`, or 0 if there is none -/
+def lastTrueLen (p : Nat → Bool) : Nat → Nat
+  | 0 => 0
+  | n + 1 => if p n then n + 1 else lastTrueLen p n
+
+/-- `firstTrueFrom p fuel i`: the smallest `j` with `i ≤ j < i + fuel` and `p j`, or `i + fuel` -/
+def firstTrueFrom (p : Nat → Bool) : Nat → Nat → Nat
+  | 0, i => i
+  | fuel + 1, i => if p i then i else firstTrueFrom p fuel (i + 1)
+
 /-- number of nodes of the longest prefix whose last node can reach `x` (0 = empty prefix) -/
 def keepPrefixLen (nw : Network) (nodes : List Nat) (x : Nat) : Nat :=
-  match ((List.range nodes.length).reverse.find? (fun i => nw.canReach (nodes.getD i 0) x)) with
-  | some i => i + 1
-  | none => 0
+  lastTrueLen (fun i => nw.canReach (nodes.getD i 0) x) nodes.length
 
 /-- start index of the longest suffix whose first node `x` can reach (`length` = empty suffix) -/
 def keepSuffixStart (nw : Network) (nodes : List Nat) (x : Nat) : Nat :=
-  match ((List.range nodes.length).find? (fun i => nw.canReach x (nodes.getD i 0))) with
-  | some i => i
-  | none => nodes.length
+  firstTrueFrom (fun i => nw.canReach x (nodes.getD i 0)) nodes.length 0
 
 /-- the depots of a path are dropped when it is inserted into a dummy tour -/
 def stripForDummy (nw : Network) (isDummy : Bool) (path : List Nat) : List Nat :=
